@@ -153,6 +153,15 @@ def check_grid(rec, inp):
         kmin, kmax, okb = str(e), None, False
     rec.check(okb, "C10:bounds", "param_bounds_interpol != per-axis min/max", inp, [kmin, kmax],
               [{n: min(a) for n, a in zip(names, axes)}, {n: max(a) for n, a in zip(names, axes)}])
+    # the same question asked again (and after an evaluation in between) has the same answer
+    try:
+        K.kin_scaling(scramble({n: axes[i][0] for i, n in enumerate(names)}, inp["order"], rng))
+        again = [K.param_bounds_interpol() for _ in range(2)]
+        oka = all(dict(a[0]) == dict(kmin) and dict(a[1]) == dict(kmax) for a in again) if okb else True
+    except Exception as e:
+        again, oka = str(e), False
+    rec.check(oka, "C10:bounds:repeated", "param_bounds_interpol asked a second / third time on the same object answers differently", inp, jsonable(again),
+              [{n: min(a) for n, a in zip(names, axes)}, {n: max(a) for n, a in zip(names, axes)}])
     # --- missing key ------------------------------------------------------------------------------------------
     node = {n: axes[i][0] for i, n in enumerate(names)}
     for n in names:
